@@ -6,6 +6,9 @@ CONSTANTS Strs <- MCStrs
           MaxImgs = 1
 INVARIANT Inv
 PROPERTY Immutable
+PROPERTY ImagesAppendOnly
+PROPERTY IterShrinks
+PROPERTY DeadStaysDead
 VIEW View
 CONSTRAINT Bound
 CHECK_DEADLOCK FALSE
